@@ -200,6 +200,10 @@ theorem tinv_step {c : Cfg} {s s' : St} (hb : 0 ≤ c.b0) (ht : 0 ≤ c.t0) (h :
     have h1 := step_kFinal hs
     subst h1
     exact ⟨t.pausedLe, t.sinceLe, t.stages, fun p i _ _ hkd => by simp at hkd⟩
+  | failForGood =>
+    obtain ⟨h1, _⟩ := step_failForGood hs
+    subst h1
+    exact ⟨t.pausedLe, t.sinceLe, t.stages, t.rounds⟩
   | exit =>
     obtain ⟨i, _, h1⟩ := step_exit hs
     subst h1
